@@ -236,6 +236,11 @@ def props_of(conj, sig, group):
     kind = sig.get('kind', '-')
     op = sig.get('op', '-')
     ps = set()
+    if kind == 'confine':
+        ps.add('C07')
+        if conj == 'nopanic':
+            ps.add('C13')
+        return ps
     if kind == 'awalk':
         ps.add('C15')
         if conj == 'nopanic':
